@@ -261,7 +261,7 @@ impl Scenario for Wire1 {
                 rpa = Some(pa.spawn());
                 for (mut b, ms) in bufs.into_iter().zip(send_msgs.into_iter()) {
                     let sh2 = sh.clone();
-                    sender_handles.push(tokio::spawn(chaos(
+                    sender_handles.push(tokio::spawn(chaos_auto(
                         async move {
                             for m in &ms {
                                 send1(&mut b, m).await.map_err(|e| Violation::new("wire", "send-failed", e.to_string()))?;
@@ -301,7 +301,7 @@ impl Scenario for Wire1 {
                 let _ = ms;
                 let want: Vec<String> = wants[i].clone();
                 let sh2 = sh.clone();
-                rhandles.push(tokio::spawn(chaos(
+                rhandles.push(tokio::spawn(chaos_auto(
                     async move {
                         for (j, w) in want.iter().enumerate() {
                             let got = recv1(p, &mut b).await.map_err(|e| {
@@ -495,7 +495,7 @@ impl Scenario for Wire2 {
                 let (_r_unused, mut wr) = btx.into_split();
                 let msgs: Vec<AnyMessage> = msg_order.iter().map(|(i, j)| plan[*i].1[*j].clone()).collect();
                 let sh2 = sh.clone();
-                tokio::spawn(chaos(
+                tokio::spawn(chaos_auto(
                     async move {
                         for (n, m) in msgs.into_iter().enumerate() {
                             wr.write_message(m, n as u32, server_bit).await.map_err(|e| Violation::new("wire", "net2-write-failed", e.to_string()))?;
@@ -514,7 +514,7 @@ impl Scenario for Wire2 {
                 let mut w = raw.unwrap();
                 let frags = frag_order.clone();
                 let sh2 = sh.clone();
-                tokio::spawn(chaos(
+                tokio::spawn(chaos_auto(
                     async move {
                         for (i, (id, f)) in frags.iter().enumerate() {
                             w.write_all(&segment(*id, i as u32, f)).await.map_err(|e| Violation::new("wire", "raw-write-failed", e.to_string()))?;
